@@ -215,17 +215,21 @@ Ident(r) == <<r.k, r.v, r.t>>
 OrigOf(name) == LET S == {i \in 1..Len(orig) : orig[i].name = name} IN
                 IF S = {} THEN {} ELSE LET f == orig[CHOOSE i \in S : TRUE] IN {Ident(f.recs[i]) : i \in 1..Len(f.recs)}
 \* One copy of the closed database had one file damaged (kind "flip": one bit; "bytes": several bytes overwritten;
-\* "trunc": file cut; "garbage": a block replaced), was opened, and every read path was used. Allowed:
+\* "zeros": a run of zero bytes from a record or block start; "trunc": file cut; "garbage": a block replaced), was
+\* opened, and every read path was used. Allowed:
 \*   - Open, Get, Fold, the sequential reader return an error (never a panic, never a hang);
-\*   - a value that is returned is the one originally written for that key (for cuts and overwrites, which can
-\*     remove whole records undetectably: a value once written to that key, or not-found);
+\*   - a value that is returned is the one originally written for that key (for cuts, which can remove whole
+\*     records undetectably, and for damage to the final record of the newest file: a value once written to
+\*     that key, or not-found);
 \*   - nothing the sequential reader delivers differs from a record that file held.
 TDamage ==
   /\ Is("damage") /\ st = "closed"
   /\ LET e == E
          \* a damaged final record of the newest data file is indistinguishable from a torn write, which recovery
          \* may legitimately drop (C03): there the wider rule applies
-         strict == e.kind = "flip" /\ ~e.tail
+         \* (bit flips, overwritten bytes, zeroed runs and garbage blocks are all caught by the checksums; only a cut can
+         \* remove whole records without a trace)
+         strict == e.kind \in {"flip", "bytes", "zeros", "garbage"} /\ ~e.tail
          okErr(x) == x \notin {"panic", "stuck"}
          valOK(k) == \/ e.vals[k] = model[k]
                      \/ (e.vals[k] = -2 /\ okErr(e.geterrs[k]))                        \* an error other than not-found
